@@ -66,8 +66,16 @@ impl<'a> ZoneHydrator<'a> {
         let columns = self.plan.columns_to_load().await;
         let mut zones_by_uid: std::collections::HashMap<String, Vec<usize>> =
             std::collections::HashMap::new();
+        // Index pruners return zones without a uid, "all zones" fallbacks return zones with one.
+        // When both kinds are combined (e.g. OR of a pruned filter and a fallback filter) the
+        // untagged zones belong to the plan's own event type and must still be hydrated.
+        let fallback_uid = if candidate_zones.iter().any(|z| z.uid().is_some()) {
+            self.plan.event_type_uid().await
+        } else {
+            None
+        };
         for (idx, zone) in candidate_zones.iter().enumerate() {
-            if let Some(uid) = zone.uid() {
+            if let Some(uid) = zone.uid().or(fallback_uid.as_deref()) {
                 zones_by_uid.entry(uid.to_string()).or_default().push(idx);
             }
         }
